@@ -158,11 +158,79 @@ fn parse_tag_line(line: &str) -> Result<(String, Vec<(String, String)>, bool), S
 	Ok((tag, attrs, selfclosing))
 }
 
+/// Cut a dump into its items: tags `<...>` (quotes inside attribute values respected) and
+/// Debug-quoted text items `"..."`; whitespace between items is skipped.
+fn xml_items(text: &str) -> Result<Vec<String>, String>
+{
+	let mut items = Vec::new();
+	let mut chars = text.chars().peekable();
+	while let Some(&c) = chars.peek()
+	{
+		if c.is_whitespace()
+		{
+			chars.next();
+			continue;
+		}
+		let mut item = String::new();
+		let is_tag = c == '<';
+		if !is_tag && c != '"'
+		{
+			let rest: String = chars.take(40).collect();
+			return Err(format!("unexpected text item {}: {rest}", items.len()));
+		}
+		item.push(c);
+		chars.next();
+		let mut in_quotes = !is_tag;
+		let mut closed = false;
+		while let Some(d) = chars.next()
+		{
+			item.push(d);
+			if in_quotes
+			{
+				if d == '\\'
+				{
+					if let Some(e) = chars.next()
+					{
+						item.push(e);
+					}
+				}
+				else if d == '"'
+				{
+					in_quotes = false;
+					if !is_tag
+					{
+						closed = true;
+						break;
+					}
+				}
+			}
+			else if d == '"'
+			{
+				in_quotes = true;
+			}
+			else if d == '>'
+			{
+				closed = true;
+				break;
+			}
+		}
+		if !closed
+		{
+			return Err(format!("unterminated item {}: {}", items.len(), item.chars().take(40).collect::<String>()));
+		}
+		items.push(item);
+	}
+	Ok(items)
+}
+
 /// Parse the XML dump; `Err` describes the first well-formedness problem.
 pub fn parse_xml(lines: &[String]) -> Result<Vec<Xml>, String>
 {
 	let mut stack: Vec<Xml> = vec![Xml { tag: "#root".into(), attrs: vec![], children: vec![], text: vec![] }];
-	for (ln, line) in lines.iter().enumerate()
+	// The layout of the dump (indentation, line breaks between elements) is incidental: the dump is
+	// cut into elements and quoted text items wherever they stand.
+	let items = xml_items(&lines.join("\n"))?;
+	for (ln, line) in items.iter().enumerate()
 	{
 		let l = line.as_str();
 		if l.starts_with("<MALFORMED")
